@@ -65,7 +65,17 @@ func (s *swamp) PatchExpired(howMany int32, ops []msgpackpatch.Op, condition *ms
 	// expiration-time indexes are built before we try to select.
 	s.buildBeacon(s.expirationTimeBeaconASC, s.expirationTimeBeaconDESC, BeaconTypeExpirationTime)
 
-	selected, capReached := s.expirationTimeBeaconASC.SelectExpiredForPatchWithCap(int(howMany), selectionPredicate, capPredicate, int(capMax))
+	// SelectExpiredForPatchWithCap counts the cap's matches over the expiration index, which only
+	// holds treasures that carry an ExpiredAt. Matching treasures without one still occupy the cap:
+	// take them off the maximum before selecting.
+	effectiveCapMax := int(capMax)
+	if capPredicate != nil {
+		outside := s.beaconKey.CountMatching(capPredicate) - s.expirationTimeBeaconASC.CountMatching(capPredicate)
+		if outside > 0 {
+			effectiveCapMax -= outside
+		}
+	}
+	selected, capReached := s.expirationTimeBeaconASC.SelectExpiredForPatchWithCap(int(howMany), selectionPredicate, capPredicate, effectiveCapMax)
 	if len(selected) == 0 {
 		return nil, capReached, nil
 	}
